@@ -5,8 +5,8 @@ func init() {
 		ID:         "C36",
 		Level:      "other",
 		Technique:  "sibling-agreement rule over all keyed-view insertions in lazyInit closures + CFG dominance (static)",
-		Explain:    "Decides a structural necessary condition of C36's `ByName/ByNumber/ByJSONName/ByTextName return the first element with that key`: every keyed-view map insertion performed while ranging over the element list in a once.Do lazyInit closure of internal/filedesc is dominated by the key-absent test on the same map and key. Also decides that Get(i) of every list type returns the i-th element of the backing list, and that every By*/Has lookup answers only from the lazily built index (never from the backing list directly), so lookups cannot disagree with the first-wins / sorted index.",
-		NotCovered: "correctness of the binary search inside Has, FullName/Parent chains, RequiredNumbers, oneof/map-entry link mutuality; those are value-level.",
+		Explain:    "Decides a structural necessary condition of C36's `ByName/ByNumber/ByJSONName/ByTextName return the first element with that key`: every keyed-view map insertion performed while ranging over the element list in a once.Do lazyInit closure of internal/filedesc is dominated by the key-absent test on the same map and key. Also decides that Get(i) of every list type returns the i-th element of the backing list, and that every By*/Has lookup answers only from the lazily built index (never from the backing list directly), so lookups cannot disagree with the first-wins / sorted index. Also: every Has method answers from a linear scan, a map filled from the whole list, or a sorted copy of it (never by indexing the declaration-order list), and MapKey/MapValue are the entry's fields numbered 1 and 2.",
+		NotCovered: "FullName/Parent chains, RequiredNumbers contents, oneof link mutuality on concrete descriptors; those are value-level.",
 		Quick:      all("./internal/filedesc"),
 		Thorough:   all("./..."),
 		Run: func(c *Ctx) {
